@@ -52,6 +52,7 @@ class Tree:
         rng = self.rng = random.Random(seed)
         self.work = lib.mkscratch("c09")
         # now and then a working directory whose own name is full of pattern syntax: it must be taken literally
+        self.twin = False
         self.meta = seed % 5 == 0
         self.base = os.path.join(self.work, rng.choice(["v[1]", "{a,b}+(c)", "w.o$r^k", "q*z?", "@(x|y)"]) if self.meta else "b")
         os.makedirs(self.base)
@@ -117,6 +118,25 @@ class Tree:
                 f.write("\n".join(rl) + "\n")
             self.add(d, "file", p, fname, size=os.path.getsize(p))
             self.rules.setdefault(d, []).extend(rl)
+        # two routes to one directory under different ignore files: a directory holding a file F, and a link to it from a directory
+        # whose ignore file names F (with --follow-links F must be found whichever route the threads take first)
+        if seed % 3 == 0:
+            holders = [(d, f) for d in dirs for f in self.entries if f["kind"] == "file" and f["parent"] == d and not f["name"].startswith(".")]
+            others = [x for x in dirs if x not in self.rules]
+            if holders and others:
+                d, f = rng.choice(holders)
+                x = rng.choice(others)
+                if x != d and x not in self.ancestors(d) and d not in self.ancestors(x):
+                    xp = self.entries[x - 1]["path"]
+                    lp = os.path.join(xp, "route%d" % len(self.entries))
+                    os.symlink(self.entries[d - 1]["path"], lp)
+                    self.add(x, "link", lp, os.path.basename(lp), target=d)
+                    ip = os.path.join(xp, ".gitignore")
+                    with open(ip, "w") as fh:
+                        fh.write(f["name"] + "\n")
+                    self.add(x, "file", ip, ".gitignore", size=os.path.getsize(ip))
+                    self.rules[x] = [f["name"]]
+                    self.twin = True
         for e in self.entries:
             if e["parent"] and self.entries[e["parent"] - 1]["dev"] == 2:
                 e["dev"] = 2
@@ -146,9 +166,11 @@ class Tree:
         return out
 
     def ignored_by(self, e):
-        """Directories (ancestors of e) whose ignore file has a rule matching e."""
+        """Directories whose ignore file has a rule matching e. The rules generated here have no slash, so they match the entry's
+        name wherever it lies: with --follow-links the ignore files of the route by which an entry is reached are in effect, which
+        need not be its ancestors (Walk.tla decides per route whether such a directory was entered)."""
         out = []
-        for a in self.ancestors(e["id"]):
+        for a in sorted(self.rules):
             for r in self.rules.get(a, []):
                 if (r.endswith("/") and e["kind"] == "dir" and e["name"] == r[:-1]) or (not r.endswith("/") and glob_re(r).match(e["name"])):
                     out.append(a)
@@ -163,6 +185,12 @@ class Tree:
 
 def gen_opts(rng, tree):
     o = gen_opts0(rng, tree)
+    if tree.twin:
+        o.update({"follow": True, "noIgnore": False, "depth": None, "report": False})
+    if o["follow"]:
+        # a --path pattern with a literal directory prefix prunes the directories on the ROUTE to a followed link; whether a target
+        # outside that prefix... inside it but reached only through a pruned directory must be found is not documented: not generated
+        o["paths"] = [p for p in o["paths"] if p.startswith("**") or p.startswith(".*")]
     if tree.meta:
         # absolute patterns would make the directory name part of the glob text: only relative ones here
         for k in ("paths", "excludes"):
